@@ -90,7 +90,7 @@ Proof.
     + apply Z.leb_gt in E. rewrite Ed0 in Hc. cbn [bind] in Hc.
       destruct (vef_copy m rest (bytes - l)) as [[d' e']|] eqn:Erec; cbn [bind] in Hc; [|discriminate].
       injection Hc as Hd He'. subst d el'.
-      destruct (IH (bytes - l) rb d' e' Hrest Er ltac:(lia) Erec) as [A B].
+      destruct (IH (bytes - l) rb d' e' Hrest eq_refl ltac:(lia) Erec) as [A B].
       assert (HLn : length d0 = Z.to_nat l) by (unfold len in HL0; lia).
       split.
       * rewrite firstn_app_ge by lia. rewrite A. f_equal. f_equal. lia.
